@@ -197,3 +197,36 @@ def iterblocks(self, m, **kargs):
         yield Pi
     P.close()
 '''
+
+
+SHA1_INIT = '''
+def __init__(self, version=1):
+    self.size = 160
+    self.blocksize = 512
+    self.wsize = 32
+    assert version in (0, 1)
+    self.version = version
+    self.ft = [Ch]*20 + [Parity]*20 + [Maj]*20 + [Parity]*20
+    self.K = [%d]*20 + [%d]*20 + [%d]*20 + [%d]*20
+    self.initstate()
+'''
+SHA1_INITSTATE = '''
+def initstate(self):
+    self.H = [Bits(v, self.wsize) for v in %r]
+    self.padmethod = SHApadding(self.blocksize, self.wsize)
+'''
+MD4_INIT = '''
+def __init__(self):
+    self.size = 128
+    self.blocksize = 512
+    self.wsize = 32
+    self.ft = [lambda x, y, z: z ^ (x & (y ^ z)), lambda x, y, z: (x & y) | (x & z) | (y & z), lambda x, y, z: x ^ y ^ z]
+    self.K = %r
+    self.st = %r
+    self.initstate()
+'''
+MD4_INITSTATE = '''
+def initstate(self):
+    self.H = [Bits(v, self.wsize) for v in %r]
+    self.padmethod = MDpadding(self.blocksize, self.wsize)
+'''
